@@ -363,6 +363,10 @@ def report(ctx, case, fo, why, seen):
     if len(ctx.findings) >= 12:
         return
     frames = [fo["frame"]]
+    if case.get("e2e") and fo["frame"] in [x["frame"] for x in case.get("frames") or []]:
+        # on the wire the history matters (what was reported before): replay the injected frames up to this one
+        k = [x["frame"] for x in case["frames"]].index(fo["frame"])
+        frames = [x["frame"] for x in case["frames"][:k + 1] if x.get("sent", True)]
     if key.startswith("unfaithful"):
         # a record that depends on other frames of the case (reused buffer, record read after later frames):
         # replay the whole case
